@@ -207,7 +207,7 @@ def run(ctx):
     ctx.notes["canonical_encoding_differences_cubic_blocks"] = canon_diff_cubic
 
     # ---- C->S: seeded random inputs -----------------------------------------
-    n = ctx.pick(1500, 30000)
+    n = ctx.pick(1500, 26000)
     budget = ctx.pick(900, 1400)
     for _ in range(n):
         arr, block = gen_array(ctx, ctx.rng, budget)
